@@ -386,6 +386,16 @@ public:
       c.crash_variant = (int)r.below(3);
       c.crash_torn = r.uniform(0., 1.);
     }
+    if (prop == "C07" || prop == "C04" || prop == "C10") {
+      // a step after a restart is a step too: stop after the first step and
+      // continue from the dump, with the same or another number of threads
+      if (r.chance(0.15)) {
+        c.dump_every_step = true;
+        c.backups = 1;
+        c.restart_midway = true;
+        c.restart_threads = r.chance(0.6) ? (int)r.range(1, 8) : 0;
+      }
+    }
     if (prop == "C01") {
       // the radiation step of the RHD driver (a copy of the photon loop)
       c.radiation = true;
